@@ -74,7 +74,7 @@ func main() {
 				}
 			}
 		}
-		if x, ok := inst.Params["expr"]; ok {
+		if x, ok := inst.Params["expr"]; ok && os.Getenv("GOSYM_NOORACLE") == "" {
 			ast, err := oracle.Parse(x)
 			if err != nil {
 				fmt.Println(err)
@@ -83,10 +83,28 @@ func main() {
 			fmt.Println("oracle AST:", ast.String())
 			inst.Extra = &vm.OracleExtra{Exprs: map[string]oracle.Expr{"expr": ast}}
 		}
+		if mp := os.Getenv("GOSYM_MAXPATHS"); mp != "" {
+			fmt.Sscanf(mp, "%d", &e.MaxPaths)
+		}
 		t0 = time.Now()
 		e.Explore(inst)
 		fmt.Printf("explored in %v: %+v\n", time.Since(t0), e.Stats)
 		fmt.Printf("solver: queries=%d sat=%d unsat=%d unknown=%d time=%v errors=%v\n", s.Queries, s.NSat, s.NUnsat, s.NUnknown, s.SolveTime, s.Errors)
+		if os.Getenv("GOSYM_DEBUG") != "" {
+			for _, sm := range e.Samples {
+				why := map[string]int{}
+				for _, d := range sm.PC {
+					why[d.Why]++
+				}
+				fmt.Println("sample path PC:", len(sm.PC), why)
+				for i, d := range sm.PC {
+					if i > 60 {
+						break
+					}
+					fmt.Printf("   %v %s [%s]\n", d.Taken, d.T, d.Why)
+				}
+			}
+		}
 		for _, v := range e.Viol {
 			fmt.Printf("VIOLATION %s %s inputs=%v observed=%v\n", v.Label, v.Info, v.Inputs, v.Observed)
 		}
